@@ -355,7 +355,9 @@ def csr_decoder_config(draw, max_subs=5, max_sub_aw=5, dws=CSR_DWS):
     dw = draw(st.sampled_from(dws))
     al = draw(st.sampled_from([0, 0, 1, 2, 3]))
     n = draw(st.integers(0, max_subs))
-    subs = [{"aw": draw(st.integers(1, max_sub_aw)), "named": draw(st.booleans()),
+    if draw(st.integers(0, 11)) == 0:
+        n = draw(st.integers(6, 13))          # occasionally many subordinates
+    subs = [{"aw": draw(st.integers(1, max_sub_aw if n <= 5 else 2)), "named": draw(st.booleans()),
              "mode": draw(st.sampled_from(["imp", "imp", "align", "slot"])),
              "gap": draw(st.integers(0, 2)), "k": draw(st.integers(0, 4)),
              "pk": draw(st.integers(0, 9))} for _ in range(n)]
@@ -472,6 +474,9 @@ def wb_decoder_config(draw, max_subs=5, max_sub_aw=4):
     al = draw(st.sampled_from([0, 0, 1, 2]))
     gbits = (dw // g).bit_length() - 1
     n = draw(st.integers(0, max_subs))
+    if draw(st.integers(0, 11)) == 0:
+        n = draw(st.integers(6, 11))          # occasionally many subordinates
+        max_sub_aw = 1
     subs = []
     for _ in range(n):
         sparse = draw(st.sampled_from([False, False, True]))
